@@ -2,6 +2,7 @@ package main
 
 import (
 	"fmt"
+	"regexp"
 	"strings"
 
 	"github.com/jotaen/klog/klog/parser"
@@ -13,6 +14,8 @@ var readOnlyCommands = [][]string{
 	{"print"}, {"print", "--with-totals"}, {"total", "--diff", "--now"}, {"report"}, {"report", "-a", "w", "--fill"}, {"report", "-a", "m", "--diff"},
 	{"report", "-a", "q"}, {"report", "-a", "y", "--chart"}, {"tags", "-v", "-c"}, {"today", "--diff", "--now"}, {"json", "--pretty"}, {"json"},
 }
+
+var reDateLine = regexp.MustCompile(`(?m)^(\d{4})[-/](\d{2})[-/](\d{2})`)
 
 func c06Token(tier string) int {
 	if tier == "thorough" {
@@ -119,6 +122,16 @@ func runC06(env *Env, data map[string]any) *Outcome {
 		return o
 	}
 	file := writeFile(env, "c06.klg", text)
+	// the clock: the date of one of the file's records when there is one (so that `today` and `--now` have something to do)
+	nowT := mkTime(2021, 3, 4, 13, 37)
+	if ds := reDateLine.FindAllStringSubmatch(text, -1); len(ds) > 0 {
+		d := ds[len(text)%len(ds)]
+		var y, m, dd int
+		fmt.Sscanf(d[1]+" "+d[2]+" "+d[3], "%d %d %d", &y, &m, &dd)
+		if y >= 1 && y <= 9998 && m >= 1 && m <= 12 && dd >= 1 && dd <= gDaysIn(y, m) {
+			nowT = mkTime(y, m, dd, 13+len(text)%10, 37)
+		}
+	}
 	for ci, cmd := range readOnlyCommands {
 		for _, warn := range []bool{false, true} {
 			if warn && ci%3 != 0 {
@@ -129,7 +142,7 @@ func runC06(env *Env, data map[string]any) *Outcome {
 				args = append(args, "--no-warn")
 			}
 			args = append(args, file)
-			res := runCLI(env, CLIOpts{Now: mkTime(2021, 3, 4, 13, 37), Cpus: 1 + ci%3}, args...)
+			res := runCLI(env, CLIOpts{Now: nowT, Cpus: 1 + ci%3}, args...)
 			o.Evals++
 			if res.Panic != "" {
 				sig := crashSignature("C06", "panic: "+res.Panic, data)
